@@ -155,7 +155,11 @@ ArriveDuringReplay(i) ==
   /\ c' = [c EXCEPT !.late = Append(@, log[i])]
   /\ nd' = nd + 1
   /\ UNCHANGED <<p, log, pub>>
-  /\ Log([act |-> "ArriveDuringReplay", i |-> i])
+  /\ Log([act |-> "ArriveDuringReplay", i |-> i,
+          sit |-> {"L:late:" \o log[i].kind \o ":"
+                     \o (IF log[i].ep # c.snap.ep THEN "otherepoch" ELSE IF log[i].ver <= c.snap.ver THEN "old"
+                         ELSE IF \E k \in 1..Len(c.buf) : c.buf[k] = log[i] THEN "also-buffered" ELSE "news")
+                     \o ":" \o ToString(Len(c.late))}])
 
 RECURSIVE ReceiveAll(_, _, _)
 ReceiveAll(cc, rs, i) == IF i > Len(rs) THEN cc ELSE ReceiveAll(Receive(cc, rs[i]), rs, i + 1)
